@@ -26,17 +26,9 @@ var directUses = map[string]bool{"verify": true, "client-jwt-auth": true, "autho
 func genAssert(t *rapid.T, c *Case) *AssertCase {
 	a := &AssertCase{}
 	a.Use = rapid.SampledFrom([]string{"code", "verify", "bearer", "introspect", "revoke", "refresh", "client-jwt-auth", "authorize-pkjwt", "verify", "code", "bearer", "verify"}).Draw(t, "use")
-	if directUses[a.Use] {
-		a.Cfg = VerifierCfg{
-			Issuer:       rapid.SampledFrom([]string{"https://op.example.com", "https://op.example.com/oidc", "https://id.example.org/"}).Draw(t, "vissuer"),
-			MaxAgeS:      rapid.SampledFrom([]int{0, 60, 3600, 3600}).Draw(t, "maxage"),
-			OffsetS:      rapid.SampledFrom([]int{0, 1, 1, 5, 60}).Draw(t, "offset"),
-			SubjectCheck: rapid.SampledFrom([]string{"default", "default", "default", "any", "deny-blocked"}).Draw(t, "subjcheck"),
-		}
-	} else {
-		// Provider.JWTProfileVerifier: request issuer, 1 h, 1 s, SubjectIsIssuer
-		a.Cfg = VerifierCfg{Issuer: c.Issuer, MaxAgeS: 3600, OffsetS: 1, SubjectCheck: "default"}
-	}
+	// how the verifier is obtained (constructor), its settings and options; behind the endpoints either the stock
+	// provider (Provider.JWTProfileVerifier: request issuer, 1 h, 1 s, SubjectIsIssuer) or an application provider
+	a.Cfg = genVerifierCfg(t, c.Issuer, !directUses[a.Use])
 	n := len(c.Clients)
 	x := rapid.IntRange(0, n-1).Draw(t, "named")
 	X := &c.Clients[x]
@@ -451,12 +443,17 @@ func modelAssertion(c Case, a AssertSpec, cfg VerifierCfg) verdict {
 			}
 		}
 	}
+	// "its subject equals its issuer (unless a custom subject check is configured)" - whichever way the verifier was obtained
 	switch cfg.SubjectCheck {
 	case "any":
 	case "deny-blocked":
 		if strOr(a.Sub) == "blocked" {
 			soft("custom-check-refuses")
 		}
+	case "nil":
+		// the option was used, with no check in it: the statement does not say whether that counts as "configured";
+		// neither the subject clause nor acceptance is judged, every other clause is
+		soft("nil-subject-check")
 	default:
 		if strOr(a.Sub) != strOr(a.Iss) {
 			rej("sub")
@@ -513,20 +510,9 @@ type exch struct {
 
 func (e exch) JWTProfileVerifier(context.Context) *op.JWTProfileVerifier { return e.v }
 
+// makeVerifier: the storage constructor (TestRepeat); every constructor: newVerifier (verifier_test.go).
 func makeVerifier(st *vkit.Store, cfg VerifierCfg) *op.JWTProfileVerifier {
-	var opts []op.JWTProfileVerifierOption
-	switch cfg.SubjectCheck {
-	case "any":
-		opts = append(opts, op.SubjectCheck(func(*oidc.JWTTokenRequest) error { return nil }))
-	case "deny-blocked":
-		opts = append(opts, op.SubjectCheck(func(r *oidc.JWTTokenRequest) error {
-			if r.Subject == "blocked" {
-				return fmt.Errorf("subject is blocked")
-			}
-			return nil
-		}))
-	}
-	return op.NewJWTProfileVerifier(st, cfg.Issuer, time.Duration(cfg.MaxAgeS)*time.Second, time.Duration(cfg.OffsetS)*time.Second, opts...)
+	return op.NewJWTProfileVerifier(st, cfg.Issuer, time.Duration(cfg.MaxAgeS)*time.Second, time.Duration(cfg.OffsetS)*time.Second, subjectOptions(cfg)...)
 }
 
 // rightCred authenticates client cl properly (setup steps only).
@@ -558,9 +544,11 @@ func rightCredFor(cl *vkit.ClientSpec, issuer string) (string, bool) {
 
 // scenario holds what the endpoint uses need: a code or tokens of the target client.
 type scenario struct {
-	code, redirect            string
-	access, refresh, idToken  string
-	accessID                  string
+	code, redirect           string
+	access, refresh, idToken string
+	accessID                 string
+	// noKeyLookup: the verifier's key set does not ask the storage (the journal holds no GetKeyByIDAndClientID)
+	noKeyLookup bool
 }
 
 func newTokenIDs(st *vkit.Store, before map[string]bool) []string {
@@ -626,8 +614,17 @@ func journalArg(st *vkit.Store, req int, method string, idx int) (string, bool) 
 // clientLookedUpAfterKey: on the token endpoint the authenticated client is the one the library fetches from the storage
 // right after it fetched the assertion's verification key ("" when that pattern is not in the journal: not observable).
 // Whether a code / refresh token of another client is then honoured is property C04 / C07, not this one.
-func clientLookedUpAfterKey(st *vkit.Store, req int) string {
+func clientLookedUpAfterKey(st *vkit.Store, req int, noKeyLookup bool) string {
 	calls := st.CallsOf(req)
+	if noKeyLookup {
+		// client authentication is the first thing the token endpoint does: the first client it fetches
+		for _, f := range calls {
+			if f.Method == "GetClientByClientID" && len(f.Args) > 0 {
+				return f.Args[0]
+			}
+		}
+		return ""
+	}
 	for i, e := range calls {
 		if e.Method == "GetKeyByIDAndClientID" && e.Err == "" {
 			for _, f := range calls[i+1:] {
@@ -649,11 +646,11 @@ func present(st *vkit.Store, sut *vkit.SUT, ag *vkit.Agent, sc *scenario, T *vki
 	case "code":
 		r = ag.Token(vkit.CodeExchangeForm(sc.code, sc.redirect, ""), cred)
 		o.Accepted = r.Success() && r.Str("access_token") != ""
-		o.Identity = clientLookedUpAfterKey(st, r.Req)
+		o.Identity = clientLookedUpAfterKey(st, r.Req, sc.noKeyLookup)
 	case "refresh":
 		r = ag.Token(url.Values{"grant_type": {vkit.GRefr}, "refresh_token": {sc.refresh}}, cred)
 		o.Accepted = r.Success() && r.Str("access_token") != ""
-		o.Identity = clientLookedUpAfterKey(st, r.Req)
+		o.Identity = clientLookedUpAfterKey(st, r.Req, sc.noKeyLookup)
 	case "introspect":
 		r = ag.Introspect(sc.access, cred)
 		o.Accepted = r.Success()
@@ -741,8 +738,36 @@ func runAssert(c Case, res *vkit.Result) {
 	st, sut := build(c)
 	ag := vkit.NewAgent(sut)
 	cfg := ac.Cfg
+	if !knownCtor(cfg.Ctor) || (cfg.Ctor == "provider" && !directUses[ac.Use]) {
+		res.Grey = true
+		res.Label("malformed-case")
+		return
+	}
 	if !directUses[ac.Use] {
-		cfg = VerifierCfg{Issuer: sut.Issuer(), MaxAgeS: 3600, OffsetS: 1, SubjectCheck: "default"}
+		if cfg.Ctor == "" {
+			// the stock provider
+			cfg = VerifierCfg{Issuer: sut.Issuer(), MaxAgeS: 3600, OffsetS: 1, SubjectCheck: "default"}
+		} else {
+			// an application provider: the verifier is made per request, for the request's issuer
+			cfg.Issuer = sut.Issuer()
+		}
+	}
+	cfg = effectiveCfg(cfg)
+	ctorName := cfg.Ctor
+	if ctorName == "" {
+		ctorName = "storage"
+		if !directUses[ac.Use] {
+			ctorName = "stock-provider"
+		}
+	}
+	res.Label("ctor:"+ctorName, "subject-check:"+cfg.SubjectCheck, "ctor:"+ctorName+":subject-check:"+cfg.SubjectCheck)
+	if strOr(ac.A.Sub) != strOr(ac.A.Iss) {
+		res.Label("sub-differs-from-iss:" + ctorName + ":" + cfg.SubjectCheck)
+	}
+	if directUses[ac.Use] {
+		res.Label("ctor:direct:" + ctorName)
+	} else {
+		res.Label("ctor:endpoint:" + ctorName)
 	}
 
 	var sc *scenario
@@ -755,14 +780,25 @@ func runAssert(c Case, res *vkit.Result) {
 			res.Info = why
 			return
 		}
+		if ac.Cfg.Ctor != "" {
+			// the assertion under test goes to the same provider and storage behind the application's verifier
+			sut = appSUT(c, st, sut, cfg)
+			ag = vkit.NewAgent(sut)
+			sc.noKeyLookup = !ctorUsesStorage(cfg.Ctor)
+		}
 	}
 
 	// a verifier is a long-lived object: it has served other clients before
 	var verifier *op.JWTProfileVerifier
 	if directUses[ac.Use] {
-		verifier = makeVerifier(st, cfg)
+		verifier = newVerifier(context.Background(), c, st, sut, cfg, cfg.Issuer)
+		if verifier == nil {
+			res.Fail("C14:no-verifier", "constructor %q returned no verifier", cfg.Ctor)
+			return
+		}
 		for _, p := range ac.Primers {
-			if p < 0 || p >= len(c.Clients) {
+			if p < 0 || p >= len(c.Clients) || cfg.SubjectCheck == "nil" {
+				// (a verifier whose subject check is a nil func is not asked to accept anything)
 				continue
 			}
 			P := &c.Clients[p]
@@ -793,58 +829,92 @@ func runAssert(c Case, res *vkit.Result) {
 		return
 	}
 	var o outcome
-	clearFault := keyLookupFault(st, ac.KeyFault)
-	switch ac.Use {
-	case "verify":
-		req, err := op.VerifyJWTAssertion(context.Background(), assertion, verifier)
-		o = outcome{Setup: true, Accepted: err == nil, Info: fmt.Sprint(err)}
-		if err == nil {
-			if req == nil {
-				res.Fail("C14:accept-without-request", "VerifyJWTAssertion returned (nil, nil)")
-				return
+	keyFault := ac.KeyFault
+	if !ctorUsesStorage(cfg.Ctor) && knownKeyFault(keyFault) {
+		// this verifier's key set never asks the storage: there is no lookup to fail
+		res.Label("keyfault-not-applicable")
+		keyFault = ""
+	}
+	clearFault := keyLookupFault(st, keyFault)
+	acceptedNil := ""
+	direct := func(call func() (string, error)) {
+		// SubjectCheck(nil): a nil func where the library expects the check; blowing up instead of answering is no acceptance
+		defer func() {
+			if p := recover(); p != nil {
+				if cfg.SubjectCheck != "nil" {
+					panic(p)
+				}
+				o = outcome{Setup: true, Accepted: false, Info: fmt.Sprintf("panic: %v", p)}
+				res.Label("nil-subject-check:panic")
 			}
-			o.Identity = req.Issuer
-		}
-	case "client-jwt-auth":
-		id, err := op.ClientJWTAuth(context.Background(), oidc.ClientAssertionParams{ClientAssertion: assertion, ClientAssertionType: oidc.ClientAssertionTypeJWTAssertion},
-			exch{sut.Provider, verifier})
+		}()
+		id, err := call()
 		o = outcome{Setup: true, Accepted: err == nil, Info: fmt.Sprint(err)}
 		if err == nil {
 			o.Identity = id
 		}
-	case "authorize-pkjwt":
-		cl, err := op.AuthorizePrivateJWTKey(context.Background(), assertion, exch{sut.Provider, verifier})
-		o = outcome{Setup: true, Accepted: err == nil, Info: fmt.Sprint(err)}
-		if err == nil {
-			if cl == nil {
-				res.Fail("C14:accept-without-request", "AuthorizePrivateJWTKey returned (nil, nil)")
-				return
+	}
+	switch ac.Use {
+	case "verify":
+		direct(func() (string, error) {
+			req, err := op.VerifyJWTAssertion(context.Background(), assertion, verifier)
+			if err == nil && req == nil {
+				acceptedNil = "VerifyJWTAssertion"
+				return "", nil
 			}
-			o.Identity = cl.GetID()
-		}
+			if err != nil {
+				return "", err
+			}
+			return req.Issuer, nil
+		})
+	case "client-jwt-auth":
+		direct(func() (string, error) {
+			return op.ClientJWTAuth(context.Background(), oidc.ClientAssertionParams{ClientAssertion: assertion, ClientAssertionType: oidc.ClientAssertionTypeJWTAssertion},
+				exch{sut.Provider, verifier})
+		})
+	case "authorize-pkjwt":
+		direct(func() (string, error) {
+			cl, err := op.AuthorizePrivateJWTKey(context.Background(), assertion, exch{sut.Provider, verifier})
+			if err == nil && cl == nil {
+				acceptedNil = "AuthorizePrivateJWTKey"
+				return "", nil
+			}
+			if err != nil {
+				return "", err
+			}
+			return cl.GetID(), nil
+		})
 	default:
 		o = present(st, sut, ag, sc, T, ac.Use, assertion, bodyIDValue(c, ac))
+		if o.Panic != "" && cfg.SubjectCheck == "nil" {
+			o.Panic, o.Accepted = "", false
+			res.Label("nil-subject-check:panic")
+		}
 	}
 	t1 := time.Now()
 	clearFault()
+	if acceptedNil != "" {
+		res.Fail("C14:accept-without-request", "%s returned (nil, nil)", acceptedNil)
+		return
+	}
 	if o.Panic != "" {
 		res.Fail("C14:panic@"+o.Panic, "panic while presenting the assertion (%s): %s", ac.Use, o.Info)
 		return
 	}
 
 	v := modelAssertion(c, ac.A, cfg)
-	if knownKeyFault(ac.KeyFault) {
+	if knownKeyFault(keyFault) {
 		// the storage answered the key lookup with an error: whatever it handed out besides, it does not hold
 		// a key for the named client as far as this request is concerned
 		v.reject = append(v.reject, "key-lookup-failed")
 		sort.Strings(v.reject)
 		v.v = -1
-		res.Label("keyfault:" + ac.KeyFault)
+		res.Label("keyfault:" + keyFault)
 		if len(v.reject) == 1 {
-			res.Label("keyfault-only:" + ac.KeyFault) // every other condition holds (or sits in a time window)
+			res.Label("keyfault-only:" + keyFault) // every other condition holds (or sits in a time window)
 		}
 	}
-	judgeAssertion(c, res, ac.Use, ac.A, cfg, v, o, T, ac.BodyID, len(ac.Primers), t1.Sub(t0), ac.KeyFault)
+	judgeAssertion(c, res, ac.Use, ac.A, cfg, v, o, T, ac.BodyID, len(ac.Primers), t1.Sub(t0), keyFault)
 }
 
 // judgeAssertion applies the oracle; shared with nothing else but kept separate for readability.
@@ -887,7 +957,7 @@ func judgeAssertion(c Case, res *vkit.Result, use string, a AssertSpec, cfg Veri
 
 	switch vv {
 	case -1:
-		res.Label("must-reject")
+		res.Label("must-reject", "must-reject:ctor="+cfg.Ctor)
 		for _, r := range v.reject {
 			if !strings.HasPrefix(r, "key:") { // the key classes are the keyrel:* labels
 				res.Label("reject:" + r)
@@ -899,7 +969,7 @@ func judgeAssertion(c Case, res *vkit.Result, use string, a AssertSpec, cfg Veri
 		}
 	case 1:
 		if len(soft) == 0 {
-			res.Label("must-accept")
+			res.Label("must-accept", "must-accept:ctor="+cfg.Ctor)
 			if !o.Accepted {
 				res.Fail("C14:complete:"+use, "%s refused an assertion that meets every condition (iss=%q key=%s kid=%s alg=%s): %s", use, iss, a.Tok.Key, strOr(a.Tok.Kid), a.Tok.Alg, o.Info)
 			}
@@ -935,7 +1005,7 @@ func judgeAssertion(c Case, res *vkit.Result, use string, a AssertSpec, cfg Veri
 	res.NonTrivial = vv != 1 || len(soft) > 0 || same
 	res.Key = fmt.Sprintf("assert|%s|%s|v=%d|r=%v|w=%v|s=%v|rel=%s|kidsame=%v|alg=%s|sig=%s|exp=%d%s|iat=%d%s|cfg=%s/%d/%d/%s|body=%s|extra=%s|primed=%d|acc=%v|kf=%s",
 		use, c.Router, vv, v.reject, v.grey, soft, v.rel, same, a.Tok.Alg, a.Tok.Sig+"/"+a.Tok.Mangle, a.Exp.Rel, a.Exp.Form, a.Iat.Rel, a.Iat.Form,
-		cfg.Issuer, cfg.MaxAgeS, cfg.OffsetS, cfg.SubjectCheck, bodyID, a.Extra, primers, o.Accepted, keyFault)
+		cfg.Issuer, cfg.MaxAgeS, cfg.OffsetS, cfg.SubjectCheck+"@"+cfg.Ctor, bodyID, a.Extra, primers, o.Accepted, keyFault)
 }
 
 func onlyTimeReasons(r []string) bool {
